@@ -47,7 +47,7 @@ def generate(tape, tier="quick"):
     for _ in range(tape.weighted([(0, 4), (1, 3), (2, 1)])):
         chain.insert(tape.draw(len(chain) + 1), gen_adapter(tape, PASS))
     t0 = tape.choice([0, 0, 3])
-    events = gen_events(tape, 1, tape.weighted([(15, 4), (30, 4), (60, 2)]), halves=True)
+    events = gen_events(tape, 1, tape.weighted([(15, 16), (30, 16), (60, 8), (400, 1)]), halves=True)
     if t0:
         events = [[e[0], e[1] + t0, e[2]] if e[0] == "PUSH" else [e[0], e[1], e[2] + t0] for e in events]
     sc = {"engine": "E3", "t0": t0, "src": {"units": ""}, "consumers": [{"chain": chain}], "events": events, "api": tape.draw(16)}
